@@ -128,7 +128,7 @@ def run(ctx):
         ctx.attempt(r)
 
 
-def state_writes_of_closures(fn_node):
+def state_writes_of_closures(fn_node, methods=None):
     """writes to object state (self.<attr> = ..., self.<attr>[...] = ..., self.<attr>.<x> = ...) inside the nested functions of a
     method, each with the information whether a `finally` clause of an enclosing `try` inside the same closure assigns the same
     attribute again (state restored on every exit)"""
@@ -153,6 +153,26 @@ def state_writes_of_closures(fn_node):
                                    any(attr_of(tt) == a for fb in t_.finalbody for s2 in ast.walk(fb) if isinstance(s2, ast.Assign)
                                        for tt in s2.targets) for t_ in tries)
                     out.append((st, a, restored))
+        # writes made on behalf of the closure by private methods of the object it calls (one level)
+        for c in [n for n in ast.walk(h) if isinstance(n, ast.Call) and isinstance(n.func, ast.Attribute) and
+                  isinstance(n.func.value, ast.Name) and n.func.value.id == "self" and methods and n.func.attr in methods]:
+            callee = methods[c.func.attr]
+            written = set()
+            for st2 in ast.walk(callee):
+                tg2 = st2.targets if isinstance(st2, ast.Assign) else [st2.target] if isinstance(st2, (ast.AugAssign, ast.AnnAssign)) else []
+                for t2 in tg2:
+                    for el2 in (t2.elts if isinstance(t2, (ast.Tuple, ast.List)) else [t2]):
+                        if isinstance(el2, (ast.Subscript, ast.Attribute)) and not (is_self_attr(el2) and isinstance(el2.ctx, ast.Load)):
+                            a2 = attr_of(el2)
+                            if a2 is not None and (isinstance(el2, ast.Subscript) or not callee.name.startswith("__")):
+                                written.add(a2)
+            if any(x is c for t_ in tries for fb in t_.finalbody for x in ast.walk(fb)):
+                continue
+            for a2 in sorted(written):
+                restored = any(any(x is c for b_ in t_.body for x in ast.walk(b_)) and
+                               any(attr_of(tt) == a2 for fb in t_.finalbody for s2 in ast.walk(fb) if isinstance(s2, ast.Assign)
+                                   for tt in s2.targets) for t_ in tries)
+                out.append((c, a2, restored))
     return out
 
 
@@ -175,7 +195,11 @@ def _query_functions_pure(ctx):
         if not key.startswith(DC) or fi.cls is None or fi.parent is not None or fi.name != "get_lifetime_functions":
             continue
         n += 1
-        ws = state_writes_of_closures(fi.node)
+        # (properties that only read, and methods that store scratch values under a name nothing else reads, are not followed:
+        # only subscript stores - table columns - and plain attribute stores of the callee count)
+        meths = {nm: d_[-1].node for nm, d_ in fi.cls.methods.items() if nm.startswith("_") and not nm.startswith("__") and
+                 not d_[-1].is_property()}
+        ws = state_writes_of_closures(fi.node, meths)
         bad = [(st, a) for st, a, restored in ws if not restored]
         for st, a in bad:
             ctx.violated(fi, st, "%s.%s: the query closure overwrites self.%s (%s) and does not restore it: afterwards the "
